@@ -313,7 +313,13 @@ def run(ck, ctx):
         ck.floor("R04.4", n_ax, 2, "interpolation coordinates")
     ck.guard(energy, "R04 tau_energy")
 
-    # ---------------------------------------------------------------- R04.6 vec_1d_interp
+    bracketing_rules(ck, "R04.6", I)
+
+
+def bracketing_rules(ck, rule, I):
+    """vec_1d_interp as a piecewise-linear interpolation: complementary bracket masks (a query equal to a node
+    belongs to exactly one bracket), x and y of each bracket selected by one mask, the two-point formula"""
+    g = I.g
     def bracketing():
         fi = I.function(INTERP_MOD, "vec_1d_interp")
         xs, ys, x = I.input("xs", kind="array"), I.input("ys", kind="array"), I.input("x", kind="array")
@@ -325,11 +331,11 @@ def run(ck, ctx):
         pr = Pred(I)
         cmps = [n for n in walk([y]) if n.op == "Compare" and xs in n.args]
         fs = {g.vn(n): (n, pr.formula(n)) for n in cmps}
-        ck.floor("R04.6", len(fs), 2, "bracket comparisons against the row values")
+        ck.floor(rule, len(fs), 2, "bracket comparisons against the row values")
         if len(fs) == 2:
             (n1, f1), (n2, f2) = fs.values()
             e = pr.equivalent(f1, ("not", f2))
-            ck.ob("R04.6", "lower-bracket mask is the exact complement of the upper-bracket mask",
+            ck.ob(rule, "lower-bracket mask is the exact complement of the upper-bracket mask",
                   bool(e and e[0]), n1, f, f"{pr.show(f1)}  vs  {pr.show(f2)}")
         # interpolation formula
         # atoms: gathers of xs / ys
@@ -354,11 +360,11 @@ def run(ck, ctx):
                 if P.equal(v, P.ref("y0 + (x - x0)*((y1 - y0)/(x1 - x0))", env)):
                     ok = True
             detail = P.show(v)[:300]
-        ck.ob("R04.6", "row-wise inversion == y0 + (x-x0)(y1-y0)/(x1-x0) with (x0,y0) from one bracket and "
+        ck.ob(rule, "row-wise inversion == y0 + (x-x0)(y1-y0)/(x1-x0) with (x0,y0) from one bracket and "
               "(x1,y1) from the other", ok, y, f, detail)
-        ck.ob("R04.6", "each bracket's x and y are selected by the same comparison mask", len(by) == 2 and
+        ck.ob(rule, "each bracket's x and y are selected by the same comparison mask", len(by) == 2 and
               len(groups) == 2, y, f, f"{len(by)} distinct mask dependences among the gathers")
-    ck.guard(bracketing, "R04.6")
+    ck.guard(bracketing, rule)
 
 
 def _strip_phi(n):
